@@ -205,7 +205,7 @@ impl Message {
     /// [`body_beve`](MessageBuilder::body_beve) over a `Vec<T>`.
     pub fn decode_typed_slice<T: beve::BeveTypedSlice>(&self) -> Result<Vec<T>, RepeError> {
         self.require_body_format(BodyFormat::Beve)?;
-        Ok(beve::read_typed_slice(&self.body)?)
+        Ok(read_typed_slice_body(&self.body)?)
     }
 
     /// Decode a BEVE complex-array body into a `Vec<Complex<T>>` via a single
@@ -218,7 +218,7 @@ impl Message {
         &self,
     ) -> Result<Vec<beve::Complex<T>>, RepeError> {
         self.require_body_format(BodyFormat::Beve)?;
-        Ok(beve::read_complex_slice(&self.body)?)
+        Ok(read_complex_slice_body(&self.body)?)
     }
 
     /// `Ok(())` if the body's format matches `expected`, else
@@ -236,6 +236,51 @@ impl Message {
                 got: self.header.body_format,
             })
         }
+    }
+}
+
+/// BEVE generic-array type tag (the low three bits of the header byte, BEVE spec
+/// §3). Kept as a local constant rather than reaching into BEVE's header
+/// internals, like `BEVE_ALIGNED_TYPED_ARRAY_MARKER` in `server.rs`.
+const BEVE_GENERIC_ARRAY_TYPE: u8 = 5;
+
+/// `true` if `body` is the *generic* BEVE encoding of an empty array.
+///
+/// serde cannot name an element type for an empty `Vec<T>`, so `body_beve(&vec![])`
+/// emits an untyped (generic) empty array rather than the empty typed array the
+/// bulk encoders write. It carries no elements, so it is a valid empty slice of
+/// every element type; the bulk decoders accept it so that they read everything
+/// the serde encoder produces, the empty vector included.
+fn is_empty_generic_array(body: &[u8]) -> bool {
+    body.first()
+        .is_some_and(|header| header & 0b111 == BEVE_GENERIC_ARRAY_TYPE)
+        && beve::validate_slice(body).is_ok()
+        && matches!(
+            beve_from_slice::<Vec<serde::de::IgnoredAny>>(body),
+            Ok(items) if items.is_empty()
+        )
+}
+
+/// Bulk-decode a BEVE typed numeric array body, also accepting the generic empty
+/// array (see [`is_empty_generic_array`]). Shared by
+/// [`Message::decode_typed_slice`] and the bulk-slice server routes so they agree
+/// on what a serde client may send.
+pub(crate) fn read_typed_slice_body<T: beve::BeveTypedSlice>(
+    body: &[u8],
+) -> Result<Vec<T>, beve::Error> {
+    match beve::read_typed_slice(body) {
+        Err(_) if is_empty_generic_array(body) => Ok(Vec::new()),
+        other => other,
+    }
+}
+
+/// Complex counterpart of [`read_typed_slice_body`].
+pub(crate) fn read_complex_slice_body<T: beve::BeveTypedSlice>(
+    body: &[u8],
+) -> Result<Vec<beve::Complex<T>>, beve::Error> {
+    match beve::read_complex_slice(body) {
+        Err(_) if is_empty_generic_array(body) => Ok(Vec::new()),
+        other => other,
     }
 }
 
